@@ -356,6 +356,58 @@ func main() {
 	})
 	recOrder := order(revs)
 
+	// ---- receiver of phase 1: RPCSetNodeKeyValue stores EVERY pair of the request, whatever it holds
+	setFn := findFunc(rpcF, "RPCSetNodeKeyValue")
+	var recvLoop []string
+	recvRange, recvPut, recvReply := "", "", ""
+	loops := 0
+	ast.Inspect(setFn.Body, func(n ast.Node) bool {
+		switch r := n.(type) {
+		case *ast.RangeStmt:
+			loops++
+			recvRange = strings.ReplaceAll(src(r.X), " ", "")
+			for _, st := range r.Body.List {
+				switch t := st.(type) {
+				case *ast.IfStmt:
+					if t.Init != nil && t.Else == nil && hasReturn(t.Body) && strings.ReplaceAll(src(t.Cond), " ", "") == "err!=nil" {
+						if _, ok := containsCall(t.Init, "b", "Put"); ok {
+							recvLoop = append(recvLoop, "put-or-return")
+							ast.Inspect(t.Init, func(m ast.Node) bool {
+								if c, ok := isCall(m, "b", "Put"); ok {
+									var as []string
+									for _, a := range c.Args {
+										as = append(as, strings.ReplaceAll(src(a), " ", ""))
+									}
+									recvPut = strings.Join(as, ",")
+								}
+								return true
+							})
+							continue
+						}
+					}
+					recvLoop = append(recvLoop, "other: "+strings.Join(strings.Fields(src(t)), " "))
+				case *ast.IncDecStmt:
+					if t.Tok == token.INC && src(t.X) == "count" {
+						recvLoop = append(recvLoop, "count")
+					} else {
+						recvLoop = append(recvLoop, "other: "+src(t))
+					}
+				default:
+					recvLoop = append(recvLoop, "other: "+strings.Join(strings.Fields(src(st)), " "))
+				}
+			}
+			return false
+		case *ast.AssignStmt:
+			if len(r.Lhs) == 1 && strings.ReplaceAll(src(r.Lhs[0]), " ", "") == "reply.Count" {
+				recvReply = strings.ReplaceAll(src(r), " ", "")
+			}
+		}
+		return true
+	})
+	if loops != 1 {
+		die("RPCSetNodeKeyValue: expected exactly one range loop, found %d", loops)
+	}
+
 	// ---- routing keys
 	routeKey := func(fn *ast.FuncDecl) string {
 		r := ""
@@ -408,6 +460,7 @@ func main() {
 	fmt.Fprintf(&b, "/-- RPCSendShard: condition under which the reply carries FileHash of the whole file -/\ndef checksumCond : String := %s\n\n", strconv.Quote(sumCond))
 	fmt.Fprintf(&b, "/-- sendShardFile: program order of the steps that matter -/\ndef sendOrder : List String := %s\n\n", leanList(sendOrder))
 	fmt.Fprintf(&b, "/-- syncUserCollections (per destination): program order; the local delete ranges over -/\ndef recOrder : List String := %s\ndef deleteRange : String := %s\n\n", leanList(recOrder), strconv.Quote(deleteRange))
+	fmt.Fprintf(&b, "/-- RPCSetNodeKeyValue: what the loop ranges over, its statements (anything but the put with its error return and the counter is listed verbatim), the arguments of the put, the reply -/\ndef recvRange : String := %s\ndef recvLoop : List String := %s\ndef recvPut : String := %s\ndef recvReply : String := %s\n\n", strconv.Quote(recvRange), leanList(recvLoop), strconv.Quote(recvPut), strconv.Quote(recvReply))
 	fmt.Fprintf(&b, "def shardRouteKey : String := %s\ndef userRouteKey : String := %s\n\n", strconv.Quote(shardKey), strconv.Quote(userKey))
 	fmt.Fprintf(&b, "def phaseOrder : List String := %s\n\n", leanList(order(pevs)))
 	b.WriteString("end Sema.Gen.C14\n")
